@@ -96,3 +96,39 @@ func VerifC01BlocktimeFile() {
 	}
 	verifReach("end")
 }
+
+// C01.blocktime.full — the block-time file at its real size: the real NewForEpoch (432 000 cells),
+// Set, WriteTo (marshalBinary over all cells) and FromBytes (unmarshalBinary over all cells): block
+// times set for the first, second, an inner and the last slot of the epoch are read back from the
+// file for exactly those slots, untouched slots read 0, and the file has the documented size.
+func VerifC01BlocktimeFull() {
+	epoch := uint64(700)
+	idx := NewForEpoch(epoch)
+	start := epoch * 432000
+	ds := []uint64{0, 1, 215_999, 431_999}
+	bts := make([]int64, len(ds))
+	for i, d := range ds {
+		bts[i] = verifI64("blocktime")
+		verifAssume(bts[i] >= 0)
+		verifAssume(bts[i] <= 0xFFFFFFFF)
+		verifAssert(idx.Set(start+d, bts[i]) == nil, "C01.blocktime.full: Set refused a slot of the epoch")
+	}
+	var buf bytes.Buffer
+	n, err := idx.WriteTo(&buf)
+	verifAssert(err == nil, "C01.blocktime.full: WriteTo failed although every block time fits 32 bits")
+	verifAssert(n == int64(buf.Len()) && buf.Len() == DefaultIndexByteSize, "C01.blocktime.full: file size is not header + 4 bytes per slot of the epoch")
+	back, err := FromBytes(buf.Bytes())
+	verifAssert(err == nil && back != nil, "C01.blocktime.full: the written file does not load")
+	verifAssert(back.Epoch() == epoch, "C01.blocktime.full: epoch does not round-trip")
+	for i, d := range ds {
+		got, err := back.Get(start + d)
+		verifAssert(err == nil && got == bts[i], "C01.blocktime.full: block time read from the file differs from the one set")
+	}
+	for _, d := range []uint64{2, 215_998, 216_000, 431_998} {
+		got, err := back.Get(start + d)
+		verifAssert(err == nil && got == 0, "C01.blocktime.full: a slot without block reads a non-zero block time")
+	}
+	_, err = back.Get(start + 432_000)
+	verifAssert(err != nil, "C01.blocktime.full: the loaded index accepts a slot of the next epoch")
+	verifReach("end")
+}
